@@ -370,10 +370,17 @@ def data_filter_leaves_operands_alone():
         out = convert(src, add_standard_prefix=False)
         for want in ("ecb_set(1.0, 2.0, 3.0)", "ecb_sound(255.0, 3.0,", "A := 3.0", "POKE 3.0, 255.0", "ecb_set_palette(3.0, 255.0,", 'DATA "3.0", "", "255.0"'):
             res.append(ob("data-filter/operands keep their kind/%s" % want, want in out, "output contains %r" % want, out, src))
+        # calls without operands stay without operands whatever else the program (or an earlier conversion) contains
+        for name, src in {"INKEY$ next to INPUT": '10 A$=INKEY$:INPUT B\n20 IF INKEY$="" THEN 20\n30 LINE INPUT C$\n', "INPUT after a conversion with INKEY$": "10 INPUT B\n"}.items():
+            out = convert(src, add_standard_prefix=False)
+            calls = re.findall(r"RUN (_ecb_input_prefix|_ecb_input_suffix)(\([^)]*\))?", out)
+            bad = [c for c in calls if c[1]]
+            res.append(ob("data-filter/parameterless calls have no operands/%s" % name, calls and not bad, "RUN _ecb_input_prefix / _ecb_input_suffix without an operand list", bad or calls[:2], out))
         return res
     from tx.p_c04 import parser_builds_a_tree
     from tx.p_c05 import share
-    return guarded("data-filter", run) + share("tree/", parser_builds_a_tree())
+    from tx.p_c12 import persistent_state
+    return guarded("data-filter", run) + share("tree/", parser_builds_a_tree()) + share("shared-objects/", persistent_state())
 
 
 def obligations():  # noqa: F811
